@@ -194,6 +194,36 @@ theorem wrong_height_raises {m n mb nx : Nat} (s : State ℝ m n) (B : Mat ℝ m
     solve s B = .error .badInteger := by
   unfold solve; rw [dif_neg h]
 
+
+/-! ## the `std::vector` overload of `solve` (after the `fix:` commit that makes it compile) -/
+
+/-- **A·x = b** whenever the vector `solve` returns, and the indicator is the smallest pivot magnitude -/
+theorem solveVec_spec {n : Nat} (A : Mat ℝ n n) (s : State ℝ n n) (hc : construct A = .ok s)
+    (b : Vector ℝ n) (d : ℝ) (x : Vector ℝ n) (hs : solveVec s b = .ok (d, x)) :
+    matMul A (colMat x) = colMat b ∧
+    (∀ i : Fin n, d ≤ |(getU (Nat.le_refl n) s).get i i|) ∧ ∃ i : Fin n, d = |(getU (Nat.le_refl n) s).get i i| := by
+  have h1 := solveVec_as_solve s b d x hs
+  exact ⟨solve_spec A s hc _ d _ h1, indicator_spec A s hc _ d _ h1⟩
+
+theorem solveVec_singular_raises {n : Nat} (s : State ℝ n n) (b : Vector ℝ n)
+    (hsing : ∃ i : Fin n, |s.lu.get i i| < threshold) : solveVec s b = .error .zeroDivision := by
+  obtain ⟨i, hi⟩ := hsing
+  have hn : 0 < n := Nat.lt_of_le_of_lt (Nat.zero_le _) i.isLt
+  unfold solveVec
+  rw [dif_pos rfl, dif_pos ⟨rfl, hn⟩]
+  simp only
+  have hlt : minDiag s rfl hn < threshold := lt_of_le_of_lt ((minDiag_spec s rfl hn).1 i) hi
+  have : belowThreshold (minDiag s rfl hn) = true := by
+    unfold belowThreshold
+    split
+    · simpa using hlt
+    · simpa using le_of_lt hlt
+  rw [if_pos this]
+
+theorem solveVec_wrong_length_raises {m n mb : Nat} (s : State ℝ m n) (b : Vector ℝ mb) (h : mb ≠ m) :
+    solveVec s b = .error .badInteger := by
+  unfold solveVec; rw [dif_neg h]
+
 /-! ## inverse -/
 
 /-- **A·inv(A) = I** whenever `MatrixTools::inv` returns; the indicator is the smallest pivot -/
